@@ -6,6 +6,8 @@ import DirectVerif.Lemmas.C19Term
 import DirectVerif.Lemmas.C19Batch
 import DirectVerif.Lemmas.C19Sites
 import DirectVerif.Lemmas.C19Unnorm
+import DirectVerif.Lemmas.C19Stop
+import DirectVerif.Lemmas.C19State
 /-!
 # C19 — data-consistency blocks implement the MRI physics exactly
 
@@ -310,6 +312,63 @@ theorem cg_finite_termination [FiniteDimensional ℂ E] (u : Update) (hu : u = .
   rw [bOp_eq]
   exact cgIter_finite_termination F Fb Ex R M (bLin_spd P lam hl) u hu (cgInit_inv lam y z x0) rfl
 
+/-! ### "to solver tolerance within `num_iters`": what the stopping rule guarantees on exit (exact arithmetic) -/
+
+/-- **exit guarantee of `ConjGrad.cg`** with the code's own test `rk_norm_sq_new.abs().sqrt().mean() < tol` (`stopTol`):
+the returned `x` is the iterate of pass `j ≤ num_iters`; if the loop was left early (`j < num_iters`) the TRUE residual of
+the returned `x` satisfies `‖b − B x‖ < 2·tol` (the mean over the `(re, im)` pair halves the norm), and `j` is the first such
+pass: at every earlier pass the true residual norm was still `≥ 2·tol`. -/
+theorem cg_exit_guarantee (u : Update) (hu : u = .FR ∨ u = .PRP) (n : ℕ) (tol : ℝ) :
+    ∃ j, j ≤ n ∧ cg 𝒪 u n (stopTol tol) (lam : ℂ) x0 y z = (iterate 𝒪 (lam : ℂ) y z x0 u j).x ∧
+      (j < n → 0 < j ∧
+        ‖rhs 𝒪 (lam : ℂ) y z - bOp 𝒪 (lam : ℂ) (iterate 𝒪 (lam : ℂ) y z x0 u j).x‖ < 2 * tol) ∧
+      (∀ i, 0 < i → i < j →
+        2 * tol ≤ ‖rhs 𝒪 (lam : ℂ) y z - bOp 𝒪 (lam : ℂ) (iterate 𝒪 (lam : ℂ) y z x0 u i).x‖) := by
+  obtain ⟨j, hj, e, hs, hfirst⟩ :=
+    cgLoop_spec_first 𝒪 u (bOp 𝒪 (lam : ℂ)) (stopTol tol) n (cgInit 𝒪 (lam : ℂ) y z x0)
+  have key : ∀ k, stopTol tol (iterate 𝒪 (lam : ℂ) y z x0 u k).rr = true ↔
+      ‖rhs 𝒪 (lam : ℂ) y z - bOp 𝒪 (lam : ℂ) (iterate 𝒪 (lam : ℂ) y z x0 u k).x‖ < 2 * tol := by
+    intro k
+    rw [cg_cached_norm P lam hl y z x0 u hu k, stopTol_inner_self, cg_residual P lam hl y z x0 u hu k]
+  refine ⟨j, hj, e, fun h => ⟨(hs h).1, (key j).mp (hs h).2⟩, fun i h1 h2 => ?_⟩
+  have := hfirst i h1 h2
+  by_contra hc
+  rw [not_le] at hc
+  have ht := (key i).mpr hc
+  unfold iterate at ht
+  rw [ht] at this
+  exact Bool.noConfusion this
+
+/-- **within the dimension the tolerance IS reached** (exact arithmetic): with `num_iters ≥ dim` and `tol > 0` the returned `x`
+solves the normal equations up to `‖b − B x‖ < 2·tol` — either the test fired, or all `dim` passes ran and the residual
+is exactly zero (finite termination).  For `num_iters < dim` (the shipped budgets 10–15 on 10⁴-pixel images) reaching the
+tolerance is a numerical matter, checked by the oracle. -/
+theorem cg_reaches_tolerance [FiniteDimensional ℂ E] (u : Update) (hu : u = .FR ∨ u = .PRP) (n : ℕ)
+    (hn : Module.finrank ℂ E ≤ n) (tol : ℝ) (ht : 0 < tol) :
+    ‖rhs 𝒪 (lam : ℂ) y z - bOp 𝒪 (lam : ℂ) (cg 𝒪 u n (stopTol tol) (lam : ℂ) x0 y z)‖ < 2 * tol := by
+  obtain ⟨j, hj, e, hs, _⟩ := cg_exit_guarantee P lam hl y z x0 u hu n tol
+  rw [e]
+  by_cases hjn : j < n
+  · exact (hs hjn).2
+  · have hjn' : j = n := by omega
+    subst hjn'
+    have h0 : (iterate 𝒪 (lam : ℂ) y z x0 u j).r = 0 := by
+      unfold iterate
+      rw [bOp_eq]
+      have hz := cgIter_finite_termination F Fb Ex R M (bLin_spd P lam hl) u hu (cgInit_inv lam y z x0) rfl
+      have := cgIter_r_zero F Fb Ex R M (bLin_spd P lam hl) u hu (cgInit_inv lam y z x0)
+        (Module.finrank ℂ E) (j - Module.finrank ℂ E) hz
+      rwa [Nat.add_sub_cancel' hn] at this
+    rw [← cg_residual P lam hl y z x0 u hu j, h0, norm_zero]
+    linarith
+
+/-- `tol ≤ 0` (e.g. `tol = 0`) disables the test: all `num_iters` passes run -/
+theorem cg_no_tolerance (u : Update) (n : ℕ) (tol : ℝ) (ht : tol ≤ 0) :
+    cg 𝒪 u n (stopTol tol) (lam : ℂ) x0 y z = (iterate 𝒪 (lam : ℂ) y z x0 u n).x := by
+  have e : stopTol tol = fun _ => false := funext (stopTol_nonpos tol ht)
+  rw [e]
+  exact cgLoop_never_stop 𝒪 u _ n _
+
 /-- the solution is unique, so "the" solution of the normal equations is well defined -/
 theorem normal_equations_unique (x x' : E)
     (h : bOp 𝒪 (lam : ℂ) x = rhs 𝒪 (lam : ℂ) y z) (h' : bOp 𝒪 (lam : ℂ) x' = rhs 𝒪 (lam : ℂ) y z) :
@@ -383,6 +442,33 @@ theorem cg_batch_objective_never_worse (ms : List (MathSample E G)) (hP : ∀ m 
 
 end Batch
 
+/-! ## Call histories on one instance -/
+section History
+
+/-- **the likelihood-gradient block answers the analytic gradient after ANY call history** on the same instance — other
+masks, scalings, images, the same k-space object again — provided its calls write no state (the translated table
+`Gen.C19.dc_state_writes`, empty by `Bridge.C19.dc_state_writes_ok`).  `σ` is whatever `__init__` put on the instance. -/
+theorem loglik_gradient_after_any_history {σ : Type} (P : Physics F Fb Ex R M) (ws : List StateWrite) (reach : List String)
+    (hw : stateWritesOk ws reach = true) (eff : StateWrite → σ → ℂ × E × G → σ) (s0 : σ)
+    (hist : List (ℂ × E × G)) (s : ℂ) (x : E) (y : G) :
+    (Stateful.mk (fun _ a => loglik 𝒪 a.1 a.2.1 a.2.2) (applyWrites eff ws)).call s0 hist (s, x, y) =
+      s • adjModel Fb R M (fwdModel F Ex M x - M y) := by
+  rw [dc_history_independent ws reach hw]
+  exact loglik_eq_gradient P s x y
+
+/-- the same for `ConjGrad.forward`: after any history the answer is never worse than its own start `z` -/
+theorem conjGrad_never_worse_after_any_history {σ : Type} (P : Physics F Fb Ex R M) (ws : List StateWrite)
+    (reach : List String) (hw : stateWritesOk ws reach = true) (eff : StateWrite → σ → ℝ × G × E → σ) (s0 : σ)
+    (hist : List (ℝ × G × E)) (u : Update) (hu : u = .FR ∨ u = .PRP) (n : ℕ) (stop : ℂ → Bool)
+    (lam : ℝ) (hl : 0 < lam) (y : G) (z : E) :
+    objective F Ex M lam y z
+        ((Stateful.mk (fun _ a => conjGradForward 𝒪 u n stop (a.1 : ℂ) a.2.1 a.2.2) (applyWrites eff ws)).call s0 hist
+          (lam, y, z)) ≤ objective F Ex M lam y z z := by
+  rw [dc_history_independent ws reach hw]
+  exact conjGrad_objective_never_worse P lam hl y z u hu n stop
+
+end History
+
 /-! ## The hypotheses are satisfiable (non-vacuity) -/
 section Examples
 
@@ -430,6 +516,13 @@ example (x0 y z : ℂ) :=
       LinearMap.id, x0, y, z⟩]
     (by intro m hm; simp only [List.mem_singleton] at hm; subst hm; exact physics_example)
     1 one_pos .FR (Or.inl rfl) 10 (fun _ => false) 0 _ rfl
+example (y z x0 : ℂ) := cg_exit_guarantee physics_example 1 one_pos y z x0 .FR (Or.inl rfl) 10 (1 / 1000000)
+example (y z x0 : ℂ) :=
+  cg_reaches_tolerance physics_example 1 one_pos y z x0 .PRP (Or.inr rfl) 10 (by simp) (1 / 1000000) (by norm_num)
+example (y z x0 : ℂ) := cg_no_tolerance physics_example 1 one_pos y z x0 .FR 3 0 le_rfl
+example (s x y : ℂ) :=
+  loglik_gradient_after_any_history (σ := Unit) physics_example [] dcRequiredReach (by decide) (fun _ t _ => t) ()
+    [(1, 2, 3), (2, 2, 0)] s x y
 example (x y : ℂ) := dcGradAfter_eq_loglik physics_example x y
 example (x y : ℂ) := hardDC_sampled (fun _ w => w) physics_example x y
 
